@@ -120,6 +120,8 @@ def search_predicate(c):
     pivots = [e[1] for e in evs if e[0] == 0]
     if not pivots:
         return ["no expansion recorded"]
+    if c.get("err") == "findPath does not terminate":
+        bad.append("findPath did not terminate within %d processEdge calls" % 20000)
     if pivots[0] != c["dst"]:
         bad.append("first expanded node %d is not the target %d" % (pivots[0], c["dst"]))
     if len(set(pivots)) != len(pivots):
